@@ -139,8 +139,14 @@ def describe(pl):
 def fresh_slurry_like(sl, Dp):
     """independent slurry with the parameters of `sl` at diameter Dp (grading shape recovered from sl)"""
     from DHLLDV.SlurryObj import Slurry
-    r15 = sl.get_dx(0.5) / sl.get_dx(0.15)
-    r85 = sl.get_dx(0.85) / sl.get_dx(0.5)
+    pr = getattr(sl, '_params', None) or {}
+    if 'r15' in pr and 'r85' in pr:
+        # the generator knows the grading shape it asked for: no need to recover it from the discretised grading (which loses D15 when D50 lies
+        # below the pseudo-liquid limit of the present diameter)
+        r15, r85 = pr['r15'], pr['r85']
+    else:
+        r15 = sl.get_dx(0.5) / sl.get_dx(0.15)
+        r85 = sl.get_dx(0.85) / sl.get_dx(0.5)
     s = Slurry(Dp=Dp, D50=sl.D50, fluid=sl.fluid, Cv=sl.Cv, max_index=sl.max_index)
     s.rhos = sl.rhos
     s.rhoi = sl.rhoi
